@@ -26,10 +26,10 @@ uint32_t vp_c09_sent_val(uint32_t i) { return i < SENT_CAP ? sent_val[i] : 0; }
 uint8_t vp_c09_sent_ok(uint32_t i) { return i < SENT_CAP ? sent_ok[i] : 0; }
 void _ZN5QXmpp7Private10XmppSocketC2EP7QObject(char *self, char *parent) { /* QObject part of the socket is never touched */ }
 
-/* ---- serializeXml: the harness defines QXmpp::Private::serializeXml in C++ (runs the REAL toXml into the writer tree model);
-   this classifies the finished document: <r xmlns=sm/> | <a xmlns=sm h=N/> (N an unsigned 32-bit number) | anything else -------- */
+/* ---- serializeXml<SmAck>, serializeXml<SmRequest> (inline templates, overridden): run the REAL T::toXml into the writer tree model
+   (Qt's text encoding is trusted) and classify the finished document: <r xmlns=sm/> | <a xmlns=sm h=N/> (N an unsigned 32-bit number) | anything else -------- */
 static uint8_t c09_lit(QAD **s, const char *l, uint32_t n) { return _ZNK7QStringeqE13QLatin1String((char*)s, n, (char*)l); }
-void vp_c09_classify(char *w, char *ret) {
+static void c09_classify(char *w, char *ret) {
   struct wr *x = WR(w); VP_ASSERT(x->root != 0 && x->depth == 0, "C09 serialized nonza is one complete element");
   ASSUME(x->root != 0);
   struct dnode *r = x->root; uint32_t kind = K_OTHER, val = 0;
@@ -38,6 +38,8 @@ void vp_c09_classify(char *w, char *ret) {
     else if (c09_lit(&r->tag, "a", 1)) { QAD *hn; _ZN7QString17fromLatin1_helperEPKci((char*)&hn, (char*)"h", 1); int i = dn_attr(r, hn);
       if (i >= 0 && numS(r->av[i]).isnum && !numS(r->av[i]).neg && numS(r->av[i]).mag <= 0xffffffffULL && r->nattr == 1) { kind = K_ACK; val = (uint32_t)numS(r->av[i]).mag; } } }
   *(QAD**)ret = c09_blk(kind, val); }
+void _ZN5QXmpp7Private12serializeXmlINS0_5SmAckEEE10QByteArrayRKT_(char *ret, char *pkt) { char *w[2]; vp_writer_init((char*)w); F_vp_c09_toxml_ack(pkt, (char*)w); c09_classify((char*)w, ret); }
+void _ZN5QXmpp7Private12serializeXmlINS0_9SmRequestEEE10QByteArrayRKT_(char *ret, char *pkt) { char *w[2]; vp_writer_init((char*)w); F_vp_c09_toxml_req(pkt, (char*)w); c09_classify((char*)w, ret); }
 uint8_t vp_c09_false(void) { return 0; }
 #endif
 
